@@ -50,7 +50,11 @@ pub fn build_and_run(id: &str, cases: &[SurfCase], lterms: &[LtermCase], seed: u
     std::fs::create_dir_all(dir.join(".cargo")).ok();
     std::fs::write(
         dir.join("Cargo.toml"),
-        format!("[package]\nname = \"pvgen_{}\"\nversion = \"0.1.0\"\nedition = \"2018\"\n\n[dependencies]\nproto-vulcan = {{ path = \"/repo\" }}\n\n[profile.dev]\nopt-level = 0\ndebug = 0\n\n[workspace]\n", id.to_lowercase()),
+        format!(
+            "[package]\nname = \"pvgen_{}\"\nversion = \"0.1.0\"\nedition = \"2018\"\n\n[dependencies]\nproto-vulcan = {{ path = \"{}\" }}\n\n[profile.dev]\nopt-level = 0\ndebug = 0\n\n[workspace]\n",
+            id.to_lowercase(),
+            std::env::var("PVMON_REPO").unwrap_or_else(|_| "/repo".to_string())
+        ),
     )
     .ok();
     std::fs::write(dir.join(".cargo/config.toml"), "[net]\noffline = true\n\n[build]\nrustflags = [\"--cfg\", \"terohuttunen_proto_vulcan_verif\", \"-Awarnings\"]\n").ok();
